@@ -20,11 +20,12 @@ RULE = ('one evaluation = one simulated run of two real daemons with natural and
         'distinct interleaving signature; reach = (local state x incoming exchange) cells')
 COMPONENTS = {'real': ['ikesa.py state machine', 'ikesacontroller.py main_loop, process_acquire / process_expire', 'message.py', 'crypto.py',
                        'xfrm.py', 'netlink.py'], 'stub': ['clock', 'select', 'network fates', 'kernel model (ACQUIRE / EXPIRE sources)']}
-ASSUMPTIONS = ['collision answers (TEMPORARY_FAILURE / CHILD_SA_NOT_FOUND) are read from the protected traffic by the wiretap in C09b '
-               '(see DESIGN); this check judges exceptions, refused steps (FIFO batch), progress and agreement',
+ASSUMPTIONS = ['collision answers (TEMPORARY_FAILURE / CHILD_SA_NOT_FOUND) are judged per first-time in-window authentic request: receiver state '
+               'from a call-through wrapper on IkeSa.process_message, request and reply decoded by the reference with wiretap keys; the RFC 2.25 '
+               'SHOULDs for which a normal reply is equally conforming (simultaneous rekey of the same SA) accept either',
                'agreement is judged at calm points later than DPD + retransmission budget after the last fault',
                'a CHILD_SA is compared only if both endpoints tracked it at some common instant (the property carve-out)']
-EXPECT_REACH = ['collisions', 'calm_points_judged', 'trigger.acquire', 'trigger.expire_soft', 'trigger.expire_hard', 'trigger.rekey_ike',
+EXPECT_REACH = ['collisions', 'answers.judged', 'calm_points_judged', 'trigger.acquire', 'trigger.expire_soft', 'trigger.expire_hard', 'trigger.rekey_ike',
                 'trigger.delete_ike', 'trigger.dpd', 'batch.fifo', 'batch.lossy']
 REQ_STATES = ('INIT_REQ_SENT', 'AUTH_REQ_SENT', 'NEW_CHILD_REQ_SENT', 'REK_CHILD_REQ_SENT', 'REK_IKE_SA_REQ_SENT', 'DEL_CHILD_REQ_SENT',
               'DEL_IKE_SA_REQ_SENT', 'DEL_AFTER_REKEY_IKE_SA_REQ_SENT', 'DPD_REQ_SENT')
@@ -141,6 +142,126 @@ class CollisionOracle:
                                  f'{[sorted(x.hex() for x in d) for d in bad]} (A has {len(ca)}, B has {len(cb)})')
 
 
+class CollisionAnswers:
+    """Clause 'collisions are answered as RFC 7296 2.25 requires'.  A call-through wrapper on IkeSa.process_message records the
+    receiver's state just before it handles a datagram and the reply it returns; request and reply are then decoded by the
+    reference (session keys from the wiretap), never by the daemon's own codec.  Judged for every first-time, in-window,
+    authentic CREATE_CHILD_SA / INFORMATIONAL request, in every batch (loss and reordering included)."""
+    TF, NOT_FOUND, INVALID_SYNTAX = 43, 44, 7
+    NEGOTIATION = {14, 38, 17, 43, 44, 35}       # NO_PROPOSAL_CHOSEN, TS_UNACCEPTABLE, INVALID_KE_PAYLOAD, TEMPORARY_FAILURE, CHILD_SA_NOT_FOUND, NO_ADDITIONAL_SAS
+
+    def __init__(self, world, tap, oracle):
+        from sim import seams
+        from sim.interpose import Interposer
+        self.w, self.tap, self.orc = world, tap, oracle
+        self.ip = Interposer(world, tap)          # no rules: used for its open() helper only
+        self.IkeSa = seams.M['ikesa'].IkeSa
+        self.orig = self.IkeSa.process_message
+        me = self
+
+        def process_message(sa, data):
+            pre = None
+            try:
+                pre = me.pre_state(sa, data)
+            except Exception:
+                pre = None
+            out = me.orig(sa, data)
+            if pre is not None:
+                me.judge(sa, pre, bytes(data), out)
+            return out
+        self.IkeSa.process_message = process_message
+
+    def restore(self):
+        self.IkeSa.process_message = self.orig
+
+    @staticmethod
+    def pre_state(sa, data):
+        h = parse_header(data)
+        if h is None or h['R'] or h['exch'] not in (36, 37) or h['id'] != sa.peer_msg_id or sa.ike_sa_keyring is None:
+            return None
+        spis = set()
+        for c in sa.child_sas:
+            spis.add(bytes(c.inbound_spi))
+            spis.add(bytes(c.outbound_spi))
+        st = sa.state.name
+        dele = getattr(sa, 'deleting_child_sa', None) if st == 'DEL_CHILD_REQ_SENT' else None
+        rek = getattr(sa, 'rekeying_child_sa', None) if st == 'REK_CHILD_REQ_SENT' else None
+        return {'state': st, 'spis': spis, 'h': h,
+                'deleting': {bytes(dele.inbound_spi), bytes(dele.outbound_spi)} if dele is not None else set(),
+                'rekeying': {bytes(rek.inbound_spi), bytes(rek.outbound_spi)} if rek is not None else set()}
+
+    def judge(self, sa, pre, data, out):
+        w = self.w
+        if w.poisoned or not out:
+            return
+        q = self.ip.open(data)
+        a = self.ip.open(bytes(out))
+        if q is None or a is None:
+            self.orc._r('answers.undecoded')
+            return
+        qh, qpl, _ = q
+        ah, apl, _ = a
+        if not ah['R'] or ah['id'] != qh['id']:
+            return
+        from sim import refike as R
+        notes = [p['ntype'] for p in apl if p['type'] == R.P_NOTIFY and p['ntype'] < 16384]
+        st = pre['state']
+        if st in ('INITIAL', 'INIT_RES_SENT', 'INIT_REQ_SENT', 'AUTH_REQ_SENT'):
+            # a request overtaking the IKE_AUTH response (reordering / loss): the peer is not authenticated yet, RFC 7296 2.25 does
+            # not speak about it and refusing is legitimate
+            self.orc._r('answers.before_established')
+            return
+        sig0 = {'state': st}
+
+        def V(cls, sig, detail):
+            self.orc.viol(cls, dict(sig0, **sig), detail)
+        self.orc._r('answers.judged')
+        if qh['exch'] == 37:
+            dels = [p for p in qpl if p['type'] == R.P_DELETE]
+            if st in REQ_STATES:
+                self.orc._r('answers.informational_in_collision')
+            if notes and st not in ('DELETED', 'REKEYED'):
+                return V('collision_answered_with_error', {'request': 'INFORMATIONAL', 'notify': notes[0]},
+                         f'an authentic in-window INFORMATIONAL request ({"DELETE" if dels else "empty"}) received in state {st} was answered with '
+                         f'error notify {notes[0]}')
+            return
+        sa_p = next((p for p in qpl if p['type'] == R.P_SA), None)
+        rk = next((p for p in qpl if p['type'] == R.P_NOTIFY and p['ntype'] == R.N_REKEY_SA), None)
+        if sa_p is None or not sa_p['proposals']:
+            return
+        kind = 'ike_rekey' if sa_p['proposals'][0]['proto'] == R.PROTO_IKE else ('child_rekey' if rk is not None else 'child_create')
+        if st in REQ_STATES:
+            self.orc._r(f'answers.{kind}_in.{st}')
+        only = lambda n: notes == [n]
+        if kind in ('child_create', 'child_rekey'):
+            busy_ike = st in ('REK_IKE_SA_REQ_SENT', 'DEL_IKE_SA_REQ_SENT')
+            unknown = kind == 'child_rekey' and bytes(rk['spi']) not in pre['spis']
+            being_deleted = kind == 'child_rekey' and bytes(rk['spi']) in pre['deleting']
+            if busy_ike and not (only(self.TF) or (unknown and only(self.NOT_FOUND))):
+                return V('collision_not_answered_temporary_failure', {'request': kind},
+                         f'a {kind} request received while the IKE_SA is being {"rekeyed" if st.startswith("REK") else "deleted"} ({st}) was answered '
+                         f'{notes or "with a normal reply"} instead of TEMPORARY_FAILURE (RFC 7296 2.25.2)')
+            if unknown and not busy_ike and not only(self.NOT_FOUND):
+                return V('rekey_of_unknown_child_not_answered_child_sa_not_found', {'request': kind},
+                         f'a request to rekey CHILD_SA {bytes(rk["spi"]).hex()}, which the receiver does not hold (it holds '
+                         f'{sorted(x.hex() for x in pre["spis"])}), was answered {notes or "with a normal reply"} instead of CHILD_SA_NOT_FOUND '
+                         f'(RFC 7296 2.25.1)')
+            if being_deleted and not only(self.TF):
+                return V('collision_not_answered_temporary_failure', {'request': 'child_rekey_while_deleting'},
+                         f'a request to rekey the CHILD_SA the receiver is deleting was answered {notes or "with a normal reply"} instead of '
+                         f'TEMPORARY_FAILURE (RFC 7296 2.25.1)')
+        else:
+            if st == 'DEL_IKE_SA_REQ_SENT' and not only(self.TF):
+                return V('collision_not_answered_temporary_failure', {'request': kind},
+                         f'an IKE_SA rekey request received while closing the IKE_SA was answered {notes or "with a normal reply"} instead of '
+                         f'TEMPORARY_FAILURE (RFC 7296 2.25.2)')
+        bad = [n for n in notes if n not in self.NEGOTIATION]
+        if bad and st in REQ_STATES + ('ESTABLISHED',):
+            return V('collision_answered_with_error', {'request': kind, 'notify': bad[0]},
+                     f'an authentic in-window {kind} request received in state {st} was answered with error notify {bad[0]} '
+                     f'(not one of the negotiation / collision answers)')
+
+
 def generate(seed, tier):
     r = random.Random(f'C09gen:{seed}')
     fifo = r.random() < 0.5
@@ -203,6 +324,9 @@ def run(scenario):
         workload.QuietTail(w)
         ctx['surv'] = Survival(w, 'C17')
         ctx['oracle'] = CollisionOracle(w, wire, fifo, scenario['H'])
+        from sim.wiretap import Wiretap
+        ctx['tap'] = Wiretap(w, check_reencode=False)
+        ctx['answers'] = CollisionAnswers(w, ctx['tap'], ctx['oracle'])
 
     def at_end(w, ctx):
         orc = ctx['oracle']
@@ -212,7 +336,11 @@ def run(scenario):
                         f'{scenario["H"] + 25:.0f}s of lossless network after the last fault and never a moment with nothing in flight and no '
                         f'IKE_SA waiting for a response; tables {tabs}')
     ctx['at_end'] = at_end
-    w = execute(scenario, setup, ctx)
+    try:
+        w = execute(scenario, setup, ctx)
+    finally:
+        if ctx.get('answers'):
+            ctx['answers'].restore()
     orc = ctx['oracle']
     reach = dict(orc.reach)
     for o in scenario['ops']:
